@@ -31,8 +31,12 @@ func (self ValueRange) Display() (string, *VmInterrupt) {
 }
 
 func (self ValueRange) IsEqual(other Value) (bool, *VmInterrupt) {
+	if other.Kind() != self.Kind() {
+		return false, nil
+	}
 	otherRange := other.(ValueRange)
-	return *self.Start == *otherRange.Start && *self.End == *otherRange.End, nil
+	// `1..5` and `1..=5` are different ranges
+	return *self.Start == *otherRange.Start && *self.End == *otherRange.End && self.EndIsInclusive == otherRange.EndIsInclusive, nil
 }
 
 func (self ValueRange) Fields() (map[string]*Value, *VmInterrupt) {
